@@ -23,8 +23,9 @@ NCtx == Len(ContextPrefix)
 
 Input(t, c) == ContextPrefix[c] \o Tokens[t] \o ContextSuffix[c]
 
-\* bracket forms only make sense at top level and as a list element
-CtxFor(t) == IF Tokens[t][1] \in {LB, LP} THEN {1, 5} ELSE 1..NCtx
+\* every token in every context: bracketed and parenthesised forms also as the tail after a pair dot ("(x . [a])"),
+\* inside vectors and inside brackets
+CtxFor(t) == 1..NCtx
 
 (***************************************************************************)
 (* The option dimensions an input exercises (C08: "options an input does   *)
